@@ -21,8 +21,10 @@ type c16Input struct {
 	Replicas  int    `json:"replicas"`
 	GlobalVar bool   `json:"global_vars"`
 	LocalVar  bool   `json:"local_vars"`
-	Probes    string `json:"probes"` // none | exec | http | both
+	Probes    string `json:"probes"`                         // none | exec | http | both
 	Only      string `json:"only_templated_field,omitempty"` // when set, this is the only field that carries a template
+	Disabled  bool   `json:"disabled,omitempty"`             // the templated process is disabled: true (it can be started by hand)
+	Flags     string `json:"flags,omitempty"`                // further options of the templated process that do not change what is rendered
 	Mode      string `json:"map_order"`
 }
 
@@ -63,6 +65,12 @@ func (in c16Input) yaml() string {
 	}
 	if in.LocalVar {
 		b.WriteString("    vars:\n      L: lval\n")
+	}
+	if in.Disabled {
+		b.WriteString("    disabled: true\n")
+	}
+	for _, f := range strings.Fields(in.Flags) {
+		fmt.Fprintf(&b, "    %s: true\n", f)
 	}
 	if in.Probes == "exec" || in.Probes == "both" {
 		fmt.Fprintf(&b, "    readiness_probe:\n      exec:\n        command: %q\n      period_seconds: 2\n", in.tpl("chk"))
@@ -169,6 +177,17 @@ func c16E2(tier string, o *E2Out) {
 					}
 					in := c16Input{Replicas: r, GlobalVar: g, LocalVar: l, Probes: pr}
 					c16One(o, dir, in, tier == "thorough" || r <= 3)
+					// rendering does not depend on whether and how the process is going to be run
+					if pr == "both" && (r == 1 || r == 2) {
+						in2 := in
+						in2.Disabled = true
+						c16One(o, dir, in2, false)
+						for _, fl := range []string{"is_foreground", "is_daemon", "is_tty"} {
+							in3 := in
+							in3.Flags = fl
+							c16One(o, dir, in3, false)
+						}
+					}
 					// one templated field at a time (a shortcut taken for "plain" values must look at every field)
 					if pr == "both" && (r == 2 || r == 3) && !(g && l) {
 						for _, only := range []string{"cmd", "wd", "log", "desc", "chk", "host", "path", "port"} {
